@@ -25,7 +25,7 @@ if not getattr(core.tlc, "_unique_md", False):
 DRV = ("codec", ["drv_codec.c"])
 SPEC = "trace/CodecTrace.tla"
 READS = ("bn_read_bin", "bn_read_raw", "bn_read_str", "fp_read_bin", "fp_read_str", "fp2_read_bin",
-         "fp12_read_bin", "ep_read_bin", "ep_upk")
+         "fp12_read_bin", "ep_read_bin", "ep_upk", "ep2_read_bin")
 
 
 def nontrivial(e):
@@ -52,15 +52,49 @@ def probe(cfg, wd, specs=None):
     return [gen_codec.curve_from_probe(e) for e in evs if e.get("op") == "curve_probe" and e.get("ok") == 1]
 
 
+def probe_pf(cfg, wd, rng, quick):
+    """the pairing-friendly curve of the build with its twist: parameters and a few valid G2 points
+    (taken from the library's uncompressed writer; they are inputs, the spec judges them again)"""
+    cs = probe(cfg, wd, ["pf"])
+    if not cs:
+        return None, []
+    bdir = core.build_relic(cfg)
+    exe = core.cc_harness(cfg, DRV[0], DRV[1], bdir=bdir)
+    d = os.path.join(wd, "probe2-" + cfg)
+    os.makedirs(d, exist_ok=True)
+    evs = core.read_ndjson(os.path.join(wd, "probe-" + cfg, "trace.ndjson"))
+    e0 = [e for e in evs if e.get("op") == "curve_probe" and e.get("ok") == 1][0]
+    cv = cs[0]
+    rinv = pow(1 << (8 * e0["w"] * e0["fd"]), -1, cv.p) if e0["mont"] == 1 else 1
+    b2 = tuple(gen_codec.from_le(r) * rinv % cv.p for r in e0["b2"])
+    pf = dict(p=cv.p, fb=cv.fb, qnr=e0["qnr"], b2=b2, n=cv.n)
+    ks = [1, 2, 3, cv.n - 1] + [rng.randrange(1, cv.n) for _ in range(3 if quick else 12)]
+    cp = os.path.join(d, "cases.txt")
+    with open(cp, "w") as f:
+        for k in ks:
+            f.write("ep2_write_bin pf m%x 0 %d\n" % (k, 4 * cv.fb + 1))
+    pts = []
+    for e in core.run_driver(exe, cp, os.path.join(d, "trace.ndjson"), timeout=300):
+        o = e.get("out", [])
+        if e.get("op") == "ep2_write_bin" and e.get("err") == 0 and len(o) == 4 * cv.fb + 1 and o[0] == 4:
+            v = [int.from_bytes(bytes(o[1 + i * cv.fb:1 + (i + 1) * cv.fb]), "big") for i in range(4)]
+            pts.append(((v[0], v[1]), (v[2], v[3])))
+    return pf, pts
+
+
 def MC_RUNS(quick):
     runs = [("MCCodec", "MCCodec", "F_251, y^2=x^3+x+60 (order 2*127): all byte strings of length <= 2 and all 3-byte "
              "strings with first byte in {0,2,3,4,5,255} through every decoder; all integers |v| <= 1023 x radix 2..64; "
              "all field elements and points through the encoders", False),
-            ("MCCodec", "MCCodec_p13", "F_13, y^2=x^3+x (point (0,0) of order two), same invariants", False)]
+            ("MCCodec", "MCCodec_p13", "F_13, y^2=x^3+x (point (0,0) of order two), same invariants", False),
+            ("MCCodec2", "MCCodec2", "G2 format: F_49 = F_7[i]/(i^2+1), y^2=x^3+1+i, all strings of length <= 5 over "
+             "bytes {0..7,255} with first byte in {0,2,3,4,5,255}", False)]
     if not quick:
         runs += [("MCCodec", "MCCodec_full", "F_251: ALL 16.8 M byte strings of length <= 3", False),
                  ("MCCodec", "MCCodec_text", "F_251: all strings of length <= 2 as numerals in every radix", False),
-                 ("MCCodec", "MCCodec_p241", "F_241 (p = 1 mod 16: Tonelli-Shanks loop), y^2=x^3+x+21", False)]
+                 ("MCCodec", "MCCodec_p241", "F_241 (p = 1 mod 16: Tonelli-Shanks loop), y^2=x^3+x+21", False),
+                 ("MCCodec2", "MCCodec2_p11", "G2 format: F_121 = F_11[i]/(i^2+1), y^2=x^3+2+i", False),
+                 ("MCCodec2", "MCCodec2_p13", "G2 format: F_169 = F_13[i]/(i^2+2), y^2=x^3+x+3i", False)]
     return runs
 
 
@@ -70,7 +104,7 @@ def run(tier, seed):
     rng = random.Random(seed)
     quick = tier == "quick"
     ev.cov["trusted_base"] = core.TRUSTED
-    ev.cov["rule"] = ("per type (bn bin/raw/text, fp bin/text, fp2/fp12 uncompressed, ep compressed/uncompressed, ep_pck/upk): "
+    ev.cov["rule"] = ("per type (bn bin/raw/text, fp bin/text, fp2/fp12 uncompressed, ep and ep2 compressed/uncompressed, ep_pck/upk): "
                       "valid values incl. zero/identity/maximal, every buffer length around the advertised size, byte strings of "
                       "every length 0..L+2, every tag byte on a valid body, single-byte replacements 00/FF/^01, coordinates "
                       "p, p+1, 2^(8L)-1, abscissae without a point, negated/wrong ordinates, leading/trailing garbage, all "
@@ -113,7 +147,11 @@ def run(tier, seed):
         cases += gen_codec.gen_fp(cv, rng, tier, text=(j == 0 or not quick))
         if cv.pp and (cv.pairf or j == 0):
             cases += gen_codec.gen_fpx(cv, rng, tier)
+            cases += gen_codec.gen_fp2_packed(cv, rng, tier)
         cases += gen_codec.gen_ep(cv, rng, tier)
+    pf, pts2 = probe_pf("std256", wd, rng, quick)
+    if pf and pts2:
+        cases += gen_codec.gen_ep2(pf, pts2, rng, tier)
     conf.run("std256", "std256", DRV[0], DRV[1], cases, SPEC, nontrivial=nontrivial, min_per_shard=300)
     # 4. thorough: other field sizes
     if not quick:
@@ -125,7 +163,11 @@ def run(tier, seed):
                 cases += gen_codec.gen_fp(cv, rng, tier, text=(j == 0))
                 if cv.pp and cv.pairf:
                     cases += gen_codec.gen_fpx(cv, rng, tier)
+                    cases += gen_codec.gen_fp2_packed(cv, rng, tier)
                 cases += gen_codec.gen_ep(cv, rng, tier)
+            pf, pts2 = probe_pf(cfg, wd, rng, quick)
+            if pf and pts2:
+                cases += gen_codec.gen_ep2(pf, pts2, rng, tier)
             if cases:
                 conf.run(cfg, cfg, DRV[0], DRV[1], cases, SPEC, nontrivial=nontrivial, min_per_shard=300)
     th.join()
